@@ -232,6 +232,13 @@ def apply_op(c, op):
         if d % 2:
             v.type = ir.TensorType(ir.DataType.FLOAT)
             v.shape = ir.Shape([2])
+        if d % 5 == 4 and nodes:
+            # an initializer entry whose data is not attached (stripped / late-bound weights): described, consumed, no tensor
+            v = ir.Value(name=c.fresh("pending"), type=ir.TensorType(ir.DataType.FLOAT), shape=ir.Shape([2, "K"]))
+            if b % 2:
+                v.doc_string = "weights bound later"
+                v.metadata_props["source"] = "stripped"
+            c.flags.add("initializer_without_data")
         g.initializers.add(v)
         if nodes:
             n = nodes[b % len(nodes)]
@@ -372,7 +379,7 @@ def execute(case):
         w1 = wiring.check(p1, back)
         if w1:
             fails.append(("deserialized-wiring/roundtrip", f"from_proto(to_proto(model)) is wired differently from what the proto says: {w1[0]}"[:400]))
-        after_iso = iso.model_iso(back)
+        after_iso = iso.model_iso(back, describe_undefined=iso.pending_names(before_iso))
         d = iso.first_difference(before_iso, after_iso)
         if d:
             fails.append((f"not-isomorphic/{d[0]}", d[1][:500]))
